@@ -327,6 +327,6 @@ func callOne(ctx context.Context, eng tx.Engine, q []byte, res *result, mu *sync
 
 func tokenOf(resp []byte) string { return peer.Token(resp) }
 
-func TestPropReplyNotLost(t *testing.T) { hx.Check(t, 2000, genCase, runCase) }
+func TestPropReplyNotLost(t *testing.T) { hx.Check(t, 6000, genCase, runCase) }
 
 func TestReplay(t *testing.T) { hx.Replay(t, "TestPropReplyNotLost", 20, runCase) }
